@@ -16,7 +16,7 @@ ID = "C14"
 LEVEL = "exploration"
 RULE = ("(A) ALL reference graphs over 3 nodes (root = memento function, the others memento or plain, every subset "
         "of the possible edges incl. self-loops and 2-cycles; references sit in a branch that is never executed) "
-        "in the reference forms bare name (quick) and module.attr / alias / decorator-wrapped (thorough, plus 4 nodes "
+        "in the reference forms bare name, module.attr, alias and decorator-wrapped (thorough adds 4 nodes "
         "without self-loops), one pristine child per graph; (B) random two-module programs of C01's generator (up to "
         "7 nodes, executed call DAGs, all forms, hidden globals() calls): closure, direct set and graph edges against "
         "reachability, and every function is called: the call must raise the undeclared-dependency error iff an "
@@ -29,7 +29,7 @@ TIMEOUT = 900
 
 
 def cases(tier, seed):
-    forms = ["bare"] if tier == "quick" else ["bare", "attr", "alias", "wrapped"]
+    forms = ["bare", "attr", "alias", "wrapped"]
     for form in forms:
         edges = all_edges(3, form)
         graphs = [(kinds, mask) for kinds in itertools.product(["memento", "plain"], repeat=2)
@@ -380,6 +380,6 @@ def run_case(case):
 
 
 def conclude(agg):
-    return core.first(core.need(agg, "graphs", 2048), core.need(agg, "functions_compared", 3000),
+    return core.first(core.need(agg, "graphs", 6000), core.need(agg, "functions_compared", 3000),
                       core.need(agg, "calls_expected_undeclared", 10), core.need(agg, "calls_expected_ok", 100),
                       core.need(agg, "function_argument_scenarios", 4)), {"exhaustive": True}
